@@ -323,10 +323,12 @@ pub fn generate(seed: u64, tier: &str, sink: &mut Sink) {
                 (Some(v.as_bytes().to_vec()), l.map(|x| x.as_bytes().to_vec()), "edge-syntax")
             }
             0 => (None, None, "absent"),
-            1 => (Some(b"text/html".to_vec()), None, "no-param"),
+            // (the media type is no input of the choice: JSON, XML, CSS, event streams without a label fall to the
+            // default like everything else — seed C18-seed12: UTF-8 implied by `application/json`)
+            1 => (Some(rng.pick(&[&b"text/html"[..], b"application/json", b"application/problem+json", b"APPLICATION/JSON", b"text/json; foo=bar", b"application/xml", b"text/css", b"text/event-stream", b"application/x-www-form-urlencoded", b"text/plain"]).to_vec()), None, "no-param"),
             2 => {
                 let l = format!("x-unknown-{}", rng.below(5));
-                (Some(format!("text/html; charset={}", l).into_bytes()), Some(l.into_bytes()), "unknown-label")
+                (Some(format!("{}; charset={}", rng.pick(&["text/html", "application/json", "application/ld+json"]), l).into_bytes()), Some(l.into_bytes()), "unknown-label")
             }
             3 => {
                 let l = rng.pick(&LABELS).to_string();
